@@ -422,6 +422,11 @@ func (r *runner) run(ctx context.Context, isStream bool, input any, opts ...Opti
 			}
 
 			if reachedEnd {
+				// the run returns instead of interrupting: the tasks prepared before the wait are never
+				// started, nobody is going to read their inputs
+				for _, nt := range nextTasks {
+					closeIfStream(nt.input)
+				}
 				return result, nil
 			}
 
